@@ -97,6 +97,9 @@ func runFlowCase(c *vf.Ctx, fc *flowCase) *flowResult {
 			s.PassThroughPct = 100 // skeleton 6: LINK's outputs are links to its input
 			s.PMissingFile, s.PNull = 0, 0
 		}
+		if fc.Template == 13 && len(s.LenChoices) == 0 {
+			s.LenChoices = []int{3} // skeleton 12: three run-time elements
+		}
 		if fc.Template == 11 && len(s.LenChoices) == 0 {
 			s.LenChoices = []int{2, 3} // skeleton 10: the flag collection must have elements
 		}
